@@ -2,6 +2,7 @@ SPECIFICATION Spec
 CONSTANTS
   Files = {"r", "a", "b"}
   Root = "r"
+  SubFiles = {"b"}
   MaxDepth = 8
   FileSeq <- Seq3
   MaxStmts = 3
@@ -9,6 +10,6 @@ CONSTANTS
   GenSpellings = {"plain"}
   DevChoices <- DevIdeal
   MaxFaultAt = 9
-INVARIANTS FaultReported NoErrWithoutFault LockDiscipline DepthBound LoopOnlyOnCycle NeverOverflow InitOnce OkOnlyAcyclic Emit
+INVARIANTS UrlsResolve FaultReported NoErrWithoutFault LockDiscipline DepthBound LoopOnlyOnCycle NeverOverflow InitOnce OkOnlyAcyclic Emit
 PROPERTY Termination
 CHECK_DEADLOCK FALSE
